@@ -314,6 +314,14 @@ fn check_history(prop_name: &str, sched: &Schedule, e: &Engine, job: usize, miss
     let mut readyok = 0;
     for ev in &e.log {
         match ev.src {
+            Src::In if ev.line == "stop\nisready\n" => {
+                if let Some(g) = gos.last_mut() {
+                    if g.bestmoves.is_empty() && g.stop_t_us.is_none() {
+                        g.stop_t_us = Some(ev.t_us);
+                    }
+                }
+                isready += 1;
+            }
             Src::In => {
                 let t: Vec<&str> = ev.line.split_whitespace().collect();
                 match t.first().copied() {
@@ -441,6 +449,20 @@ fn check_history(prop_name: &str, sched: &Schedule, e: &Engine, job: usize, miss
             if lat_ms > sched.held_ms + ALLOWANCE_MS && slow.map_or(true, |(_, l)| lat_ms > l) {
                 slow = Some((k + 1, lat_ms));
             }
+        }
+    }
+    for ev in e.log.iter().filter(|x| x.src == Src::Out) {
+        let l = ev.line.as_str();
+        let ok = l == "readyok" || l.starts_with("info ") || l.starts_with("verif_dump ") || l.starts_with("id ") || l.starts_with("option ") || l == "uciok"
+            || (l.starts_with("bestmove ") && l.split_whitespace().count() == 2);
+        if !ok {
+            out::violation(
+                prop_name,
+                "torn-output-line",
+                format!("[{}] stdout carried the line '{}', which is not a whole answer of either thread", sched.name, l.chars().take(160).collect::<String>()),
+                replay.clone(),
+            );
+            break;
         }
     }
     if refused && !gos.iter().any(|g| g.bestmoves.is_empty()) {
@@ -670,12 +692,24 @@ fn stress_session(ctx: &Ctx, idx: usize, seeds: &[String], cycles: u64) {
             2 => e.settle(rng.below(4)),
             _ => e.settle(rng.below(30)),
         }
+        let mut want_ready = false;
         if needs_stop || rng.chance(1, 2) {
-            e.send("stop");
+            if rng.chance(1, 3) {
+                // both commands in a single write: the answers of the two threads collide on stdout
+                e.send_raw(b"stop\nisready\n");
+                want_ready = true;
+                out::count("C10.stop_and_isready_in_one_write", 1);
+            } else {
+                e.send("stop");
+            }
         }
+        let ready_from = out_from;
         match e.wait_since(out_from, ALLOWANCE_MS + 6_000, |ev| ev.src == Src::Out && ev.line.starts_with("bestmove")) {
             Some(i) => out_from = i + 1,
             None => break,
+        }
+        if want_ready && e.wait_since(ready_from, 3_000, |ev| ev.src == Src::Out && ev.line == "readyok").is_none() {
+            break;
         }
     }
     e.settle(100);
